@@ -124,7 +124,7 @@ def build(cfg, values=None):
 def configs(tier, seed):
     out = []
     quick = tier == 'quick'
-    maxc, maxp = (3, 7) if quick else (6, 13)
+    maxc, maxp = (3, 7) if quick else (8, 17)
     for model in ('plate', 'cpanel', 'plate_w'):
         # chunking sweep: every num_cores x point count of the bound (uvw), small series
         for cores in range(1, maxc + 1):
